@@ -65,7 +65,13 @@ def gen_case(rng, tier):
         mask = ("s", rng.choice([None, 0, 1, 2, -1, -3, -n - 1]), rng.choice([None, n, n - 1, -1, 2, n + 2]))
     else:
         k = rng.randint(0, n)
-        mask = ("i", sorted(rng.sample(range(n), k)) if rng.random() < 0.6 else [rng.randrange(-n, n) for _ in range(k)])
+        r = rng.random()
+        if r < 0.4:
+            mask = ("i", sorted(rng.sample(range(n), k)))                     # strictly increasing
+        elif r < 0.65:
+            mask = ("i", sorted(rng.randrange(n) for _ in range(k)))          # non-decreasing WITH repeats: a row counts as often as it is named
+        else:
+            mask = ("i", [rng.randrange(-n, n) for _ in range(k)])            # any order, negatives, repeats
     op = rng.choice(OPS_BY_DT[dt])
     container = rng.choice(["numpy", "pandas", "pandas"])
     index = [rng.randint(0, 6) for _ in range(n)] if container == "pandas" else None
